@@ -11,7 +11,7 @@ from z3 import And, Or, Not, Implies, ForAll, Exists, Select, Store, If, IntSort
 
 from pyvc.values import *  # noqa
 from pyvc.contracts import FunctionContract, FunctionUnit, LemmaUnit
-from .steploop import units_steploop
+from .steploop import units_steploop, units_single_step
 from .c08 import ExecAssignNoSpuriousException, ImplementLoops
 
 PROP = "C01"
@@ -205,7 +205,7 @@ def builtin_signature_lemma():
 
 
 def units():
-    return units_steploop() + [LemmaUnit("lemma:builtin-signatures", builtin_signature_lemma),FunctionUnit(ResolveArgs()), FunctionUnit(ImplementLoops()),
+    return units_steploop() + units_single_step() + [LemmaUnit("lemma:builtin-signatures", builtin_signature_lemma),FunctionUnit(ResolveArgs()), FunctionUnit(ImplementLoops()),
                                FunctionUnit(ExecAssignNoSpuriousException())]
 
 
